@@ -1157,7 +1157,11 @@ impl Gc {
         D::Value: Sized + Any,
     {
         let size = def.size();
-        let needed = self.allocated_memory.saturating_add(size);
+        // The memory accounted for an allocation includes the header of the object
+        let needed = self
+            .allocated_memory
+            .saturating_add(GcHeader::value_offset())
+            .saturating_add(size);
         if needed >= self.memory_limit {
             return Err(Error::OutOfMemory {
                 limit: self.memory_limit,
